@@ -697,10 +697,24 @@ func genUTF8(g *lp.Gen, shard int) {
 	}
 }
 
+// genTrunc: chunkings of short streams for truncWriter (holds back the last four bytes)
+func genTrunc(g *lp.Gen) {
+	g.P("C trunc")
+	for i := 0; i < 80; i++ {
+		n := 1 + g.Intn(5)
+		var cs []string
+		for j := 0; j < n; j++ {
+			cs = append(cs, specOf(randBytes(g, g.PickInt(0, 1, 1, 2, 3, 4, 5, 6, 9, 40))))
+		}
+		g.P("T %s", strings.Join(cs, ","))
+	}
+}
+
 func gen(g *lp.Gen) {
 	genMask(g, true)
+	genTrunc(g)
 	genUTF8(g, int(genSeed%1000))
-	for i := 2; i < g.N; i++ {
+	for i := 3; i < g.N; i++ {
 		switch x := g.Intn(100); {
 		case x < 70:
 			genRecv(g)
